@@ -3,8 +3,8 @@ From Coq Require Import List ZArith Bool.
 From V Require Import Gen.Params Lib.Hex Wire.Varint Wire.Headers Wire.HeadersProofs
      PktProt.PktNum PktProt.PktNumProofs PktProt.Protect PktProt.ProtectProofs PktProt.ProtectExamples
      PktProt.InitialProtect
-     UFrames.Model UFrames.Proofs UFrames.ProofsLength
-     UPacker.Model UPacker.ProofsSize UPacker.ProofsFlight UPacker.ProofsDecrypt UPacker.ProofsRandom UPacker.ProofsWire UPacker.ProofsInitialKeys.
+     UFrames.Model UFrames.Proofs UFrames.ProofsLength Wire.FramesBase Wire.Frames
+     UPacker.Model UPacker.ProofsSize UPacker.ProofsFlight UPacker.ProofsDecrypt UPacker.ProofsRandom UPacker.ProofsWire UPacker.ProofsInitialKeys UPacker.ProofsFrames.
 Import ListNotations.
 Open Scope Z_scope.
 
@@ -165,14 +165,14 @@ Proof. exact reserve_sufficient. Qed.
 Lemma t_C10_random_payload_exact : forall p data base bs us ws bs' us',
   rf_wf p -> 0 <= base -> 0 < rfLen p -> 1 <= minPad p -> base + rfLen p <= maxVarInt8 ->
   0 < zlen data <= maxCryptoData (rfTuple p) base ->
-  build_internal p data base bs us = Ok (ws, bs', us') ->
+  build_internal p data base bs us = UFrames.Model.Ok (ws, bs', us') ->
   zlen (encode ws) = rfLen p /\ minPad p <= wpadbytes ws.
 Proof. exact random_payload_exact. Qed.
 
 Lemma t_C10_random_datagram_exact : forall p data base bs us ws bs' us' cl s hdr pnLen udpMin,
   rf_wf p -> 0 <= base -> 0 < rfLen p -> 1 <= minPad p -> base + rfLen p <= maxVarInt8 ->
   0 < zlen data <= maxCryptoData (rfTuple p) base ->
-  build_internal p data base bs us = Ok (ws, bs', us') ->
+  build_internal p data base bs us = UFrames.Model.Ok (ws, bs', us') ->
   (hdr + rfLen p + 16 <= 1452 ->
    appendInitial (cl, 0) hdr pnLen (zlen (encode ws)) udpMin
    = AppOk (pnLen + rfLen p + 16) (hdr + rfLen p + 16)
@@ -188,7 +188,7 @@ Qed.
 Lemma t_C10_random_payload_nonvacuous :
   rf_wf ex_p /\ maxCryptoData (rfTuple ex_p) 0 = 1145 /\
   match build_internal ex_p (repeat 7 1145%nat) 0 ex_bs ex_us with
-  | Ok (ws, _, _) => zlen (encode ws) = 1215 /\ wpadbytes ws = 23
+  | UFrames.Model.Ok (ws, _, _) => zlen (encode ws) = 1215 /\ wpadbytes ws = 23
   | _ => False
   end.
 Proof. exact random_payload_example. Qed.
@@ -364,6 +364,18 @@ Lemma t_C10_server_reads_back_initial_keys :
       initial_unprotect v2 true keyDcid (Z.to_nat (hParsedLen hd)) largest pkt
       = UOk (192 + 16 * type_code ver H_PacketTypeInitial + (pnLen - 1)) pn pnLen 0 payload.
 Proof. exact flight_server_reads_back_initial_keys. Qed.
+
+Lemma t_C10_server_parses_passthrough : forall (c : Frames.cfg) data frames pad,
+  Forall (fun f => 0 <= fst f <= maxVarInt8 /\ 0 <= snd f /\ fst f + snd f <= zlen data /\ snd f <= maxVarInt8) frames ->
+  parseAll (S (length frames)) c W_EncryptionInitial (passPayload data frames pad)
+  = Some (map (fun f => FramesBase.FCrypto (fst f) (zslice data (fst f) (snd f))) frames).
+Proof. exact parse_passPayload. Qed.
+
+Lemma t_C10_server_parses_passthrough_example :
+  passPayload [10; 11; 12; 13; 14] [(0, 2); (2, 3)] 2 = [6; 0; 2; 10; 11; 6; 2; 3; 12; 13; 14; 0; 0] /\
+  parseAll 3 (Cfg false false false 3) W_EncryptionInitial (passPayload [10; 11; 12; 13; 14] [(0, 2); (2, 3)] 2)
+  = Some [FramesBase.FCrypto 0 [10; 11]; FramesBase.FCrypto 2 [12; 13; 14]].
+Proof. split; vm_compute; reflexivity. Qed.
 
 Lemma t_C10_server_reads_back_nonvacuous :
   (forall pn kp ad p, toy_open pn kp ad (toy_seal pn kp ad p) = Some p) /\
